@@ -41,7 +41,7 @@ pub fn story_to_json_value(
     if !story.globals().is_empty() || !story.list_declarations().is_empty() {
         named_content.insert(
             "global decl".to_owned(),
-            emit_global_declarations(story.globals(), story.list_declarations())?
+            emit_global_declarations(story.globals(), story.list_declarations(), &context)?
                 .into_json_array(None, None)?,
         );
     }
